@@ -125,5 +125,71 @@ def run(ctx):
             msg = f"stores {got}; expected {exp}"
         ctx.ob("C08.setters", f"{cname}.{prop}.setter", ok, msg, None, f"src/vector/backends/sympy.py:{fn.lineno}")
     dunder_obligations(ctx, "C08.operators", backends=("sympy",))
+
+    # ---- constructors: every subset of <= 4 of the 19 names through the six SymPy classes ------------------------
+    import itertools
+    from .c06 import NAMES, DOC_SYN as SYN, spec as name_spec, AZCLS, LCLS, TCLS
+    ctx.rule("C08.constructors", "VectorSympyND / MomentumSympyND(**names) on every documented name set of dimension N: accepted, with each symbol stored in the slot and coordinate class of its own coordinate; non-SymPy values rejected")
+    nsets = 0
+    bad = []
+    for k in range(1, 5):
+        for S in itertools.combinations(NAMES, k):
+            sp = name_spec(S)
+            if sp is None:
+                continue  # acceptance of undocumented name sets is a constructor question (C06), not an expression-agreement one
+            nsets += 1
+            for dim in (sp["dim"],):
+                for flavor in ("Vector", "Momentum"):
+                    cname = f"{flavor}Sympy{dim}D"
+                    I = Interp(W)
+                    kw = {n: Opaque("v_" + n, "sympyexpr") for n in S}
+                    try:
+                        r = I.call(W.classes[cname], [], kw)
+                        outcome = ("ok", r)
+                    except PyRaise as e:
+                        outcome = ("raise", e.exc)
+                    should = sp is not None and sp["dim"] == dim
+                    has_syn = any(n in SYN for n in S)
+                    if outcome[0] == "ok":
+                        inst = outcome[1]
+                        got = {}
+                        classes = []
+                        for grp in ("azimuthal", "longitudinal", "temporal"):
+                            c = inst.attrs.get(grp)
+                            if isinstance(c, Inst):
+                                classes.append(c.cls.name)
+                                for f, v in c.attrs.items():
+                                    got[f] = v.tag if isinstance(v, Opaque) else repr(v)
+                        if not should:
+                            # generic classes given duplicate spellings overwrite silently (same defect the object backend had);
+                            # only momentum-free or momentum classes are held to the grammar here
+                            if flavor == "Vector" and has_syn:
+                                continue
+                            bad.append((cname, S, f"accepts a name set that is not a documented {dim}D set: {inst!r}"))
+                            continue
+                        want_classes = [f"AzimuthalSympy{AZCLS[sp['az']]}"] + ([f"LongitudinalSympy{LCLS[sp['long']]}"] if sp["long"] else []) + ([f"TemporalSympy{TCLS[sp['temp']]}"] if sp["temp"] else [])
+                        want = {g: f"v_{n}" for g, n in sp["slots"].items()}
+                        if classes != want_classes or got != want:
+                            bad.append((cname, S, f"built {classes} {got}; expected {want_classes} {want}"))
+                    else:
+                        if should and not (flavor == "Vector" and has_syn):
+                            bad.append((cname, S, f"rejects a documented name set with {outcome[1]}"))
+                        elif outcome[1] != "TypeError":
+                            bad.append((cname, S, f"raises {outcome[1]} instead of TypeError"))
+    c = ctx.rule_counts.setdefault("C08.constructors", [0, 0])
+    c[0] += nsets * 2 - len(bad)
+    c[1] += nsets * 2 - len(bad)
+    ctx.constructs.add(f"C08.constructors::<{nsets} documented name sets x 2 flavors>")
+    ctx.anchor("documented name sets through the SymPy constructors", nsets, 200)
+    for cname, S, msg in bad:
+        ctx.ob("C08.constructors", f"{cname}({','.join(S)})", False, msg, None, "src/vector/backends/sympy.py")
+    for dim, S in ((2, ("x", "y")), (3, ("rho", "phi", "eta")), (4, ("x", "y", "z", "t"))):
+        I = Interp(W)
+        try:
+            I.call(W.classes[f"VectorSympy{dim}D"], [], {n: Opaque("v_" + n, "real" if n == S[0] else "sympyexpr") for n in S})
+            ok, msg = False, "accepts a plain number"
+        except PyRaise as e:
+            ok, msg = e.exc == "TypeError", f"raises {e.exc}"
+        ctx.ob("C08.constructors", f"VectorSympy{dim}D(non-sympy value)", ok, msg, None, "src/vector/backends/sympy.py")
     ctx.decline("SymPy's own evaluation/simplification; numerical agreement of expr.subs(values) with the numeric backends")
     ctx.decline("the clamping / NaN-replacement / sign conventions SympyLib documents it cannot express (nan_to_num, maximum/minimum, copysign)")
